@@ -118,6 +118,13 @@ func (f *File) syncWithoutLocking() error {
 	}
 
 	if f.writeBuf != nil {
+		// Committing reads the whole buffer; put the cursor back afterwards
+		pos, err := f.writeBuf.Seek(0, io.SeekCurrent)
+		if err != nil {
+			return err
+		}
+		defer f.writeBuf.Seek(pos, io.SeekStart)
+
 		done := false
 		if _, err := f.writeOps.Update(
 			func() (config.FileConfig, error) {
